@@ -159,14 +159,29 @@ Fixpoint rebind (e : env) (x : var) (l : loc) : env :=
   end.
 
 
+(** reflect.Append when the capacity suffices: s.Index(len+i).Set(x_i), one element after the other;
+    an aliasing argument is read when its turn comes, after the elements before it were written *)
+Fixpoint y_append_inplace (h : heap) (base : path) (off : nat) (ss : list slot) : option heap :=
+  match ss with
+  | [] => Some h
+  | s :: r => v <- slot_get h s ;; h' <- write h (sub base off) v ;; y_append_inplace h' base (S off) r
+  end.
+
 (** builtins and literals that produce a value into their own slot *)
 Definition y_rhs (grow : growth) (h : heap) (e : env) (r : rhs) : option (slot * heap) :=
   match r with
   | EPure x => s <- y_rv h e x ;; Some (s, h)
   | EAppend ek zero s es =>                                  (* _append: dest.Set(reflect.Append(value(f), values...)) *)
       ss <- y_rv h e s ;; se <- y_rvs h e es ;;
-      sv <- slot_get h ss ;; vs <- slots_get h se ;;
-      match append_vals grow h ek zero sv vs with Some (v, h') => Some (SVal v, h') | None => None end
+      sv <- slot_get h ss ;;
+      w <- slice_view sv ;;
+      let '(base, off, len, cap) := w in
+      if len + length se <=? cap then
+        h' <- y_append_inplace h base (off + len) se ;; Some (SVal (VSlice base off (len + length se) cap), h')
+      else
+        (* growslice: the old elements are copied to a new backing array, then the same loop *)
+        vs <- slots_get h se ;;
+        match append_vals grow h ek zero sv vs with Some (v, h') => Some (SVal v, h') | None => None end
   | ESliceLit es =>                                          (* arrayLit, kind Slice: MakeSlice; a.Index(i).Set(v(f)) *)
       se <- y_rvs h e es ;; vs <- slots_get h se ;;
       let '(l, h') := alloc h (CVal (VArr vs)) in Some (SVal (VSlice (l, []) 0 (length vs) (length vs)), h')
@@ -215,6 +230,9 @@ Fixpoint any_direct (ls : list lv) (rs : rvs) : bool :=
   | l :: lr, RCons r rr => pair_direct l r || any_direct lr rr
   | _, _ => false
   end.
+
+Fixpoint has_nil (rs : rvs) : bool :=
+  match rs with RNone => false | RCons RNil _ => true | RCons _ r => has_nil r end.
 
 (** a tuple assignment whose assign node was compiled away: the right-hand sides execute in order;
     a direct one writes its destination at once (a struct literal re-binds the variable), the
@@ -285,6 +303,7 @@ Fixpoint y_op (grow : growth) (s : st) (o : op) {struct o} : res :=
       ret_st (ds <- y_lvs (hp s) (en s) ls ;;
               if any_direct ls rs then
                 he <- y_multi_direct (hp s) (en s) ls ds rs ;; Some (mkst (fst he) (snd he))
+              else if has_nil rs then None   (* types[i] of nil is nil: reflect.New(nil) panics in the host *)
               else
                 (* assign, multi: t[i] = New; t[i].Set(s(f)) for all i, then d(f).Set(t[i]) *)
                 ss <- y_rvs (hp s) (en s) rs ;;
@@ -354,14 +373,25 @@ with y_ops (grow : growth) (s : st) (os : ops) {struct os} : res :=
 Fixpoint no_map_entry (ls : list lv) : bool :=
   match ls with [] => true | l :: r => negb (is_map_entry l) && no_map_entry r end.
 
+Definition is_load (x : rv) : bool := match x with RLoad _ => true | _ => false end.
+Fixpoint no_loads (xs : rvs) : bool :=
+  match xs with RNone => true | RCons x r => negb (is_load x) && no_loads r end.
+(** append(s, e1, ..., en): e2 .. en are not plain reads of variables, elements or fields *)
+Definition rhs_ok (r : rhs) : bool :=
+  match r with
+  | EAppend _ _ _ (RCons _ r') => no_loads r'
+  | _ => true
+  end.
+
 Fixpoint wf_op (o : op) : bool :=
   match o with
   | OAssign l r =>
       match rebind_case l r with
       | Some _ => false
-      | None => negb (is_map_entry l) || is_pure r
+      | None => (negb (is_map_entry l) || is_pure r) && rhs_ok r
       end
-  | OMulti ls rs => negb (any_direct ls rs) && no_map_entry ls
+  | ODefine _ r => rhs_ok r
+  | OMulti ls rs => negb (any_direct ls rs) && no_map_entry ls && negb (has_nil rs)
   | ORange _ _ _ _ body => wf_ops body
   | OCall dst _ _ body _ => match dst with Some l => negb (is_map_entry l) | None => true end && wf_ops body
   | _ => true
